@@ -271,7 +271,7 @@ class Ctx:
                 if signature not in [s for s, _ in self.known_hits]:
                     self.known_hits.append((signature, k.get("text", text)))
                 return "known"
-        if signature not in [v["signature"] for v in self.violations]:
+        if signature not in [v["signature"] for v in self.violations] and len(self.violations) < 8:
             self.violations.append(
                 {"signature": signature, "text": text, "replay": replay, "no_input": no_input}
             )
